@@ -1,4 +1,4 @@
-use emmylua_code_analysis::uri_to_file_path;
+use emmylua_code_analysis::{read_file_with_encoding, uri_to_file_path};
 use lsp_types::{
     DidChangeTextDocumentParams, DidCloseTextDocumentParams, DidOpenTextDocumentParams,
     DidSaveTextDocumentParams,
@@ -192,6 +192,41 @@ pub async fn on_did_close_document(
             context
                 .file_diagnostic()
                 .clear_push_file_diagnostics(uri.clone());
+        }
+    } else {
+        // The editor's copy is gone (it may have carried unsaved edits): the file is analysed
+        // with its content on disk again.
+        let emmyrc = analysis.get_emmyrc();
+        let disk_text = uri_to_file_path(uri)
+            .and_then(|path| read_file_with_encoding(&path, &emmyrc.workspace.encoding));
+        let unchanged = match (
+            &disk_text,
+            analysis
+                .compilation
+                .get_db()
+                .get_vfs()
+                .get_file_content(&file_id),
+        ) {
+            (Some(disk_text), Some(current)) => disk_text == current,
+            _ => false,
+        };
+        drop(analysis);
+        if let Some(disk_text) = disk_text
+            && !unchanged
+        {
+            let file_id = {
+                let mut mut_analysis = context.analysis().write().await;
+                mut_analysis.update_file_by_uri(uri, Some(disk_text))
+            };
+            if !lsp_features.supports_pull_diagnostic()
+                && let Some(file_id) = file_id
+            {
+                let interval = emmyrc.diagnostics.diagnostic_interval.unwrap_or(500);
+                context
+                    .file_diagnostic()
+                    .add_diagnostic_task(file_id, interval)
+                    .await;
+            }
         }
     }
 
